@@ -136,6 +136,7 @@ Lemma s_upg_set_thr s t th : s_upg (set_thr s t th) = s_upg s. Proof. reflexivit
 Lemma s_cuts_set_thr s t th : s_cuts (set_thr s t th) = s_cuts s. Proof. reflexivity. Qed.
 Lemma s_stolen_set_thr s t th : s_stolen (set_thr s t th) = s_stolen s. Proof. reflexivity. Qed.
 Lemma s_everclosed_set_thr s t th : s_everclosed (set_thr s t th) = s_everclosed s. Proof. reflexivity. Qed.
+Lemma s_guard_set_thr s t th : s_guard (set_thr s t th) = s_guard s. Proof. reflexivity. Qed.
 Lemma s_map_spawn s l : s_map (spawn s l) = s_map s. Proof. reflexivity. Qed.
 Lemma s_w_spawn s l : s_w (spawn s l) = s_w s. Proof. reflexivity. Qed.
 Lemma s_r_spawn s l : s_r (spawn s l) = s_r s. Proof. reflexivity. Qed.
@@ -151,6 +152,7 @@ Lemma s_upg_spawn s l : s_upg (spawn s l) = s_upg s. Proof. reflexivity. Qed.
 Lemma s_cuts_spawn s l : s_cuts (spawn s l) = s_cuts s. Proof. reflexivity. Qed.
 Lemma s_stolen_spawn s l : s_stolen (spawn s l) = s_stolen s. Proof. reflexivity. Qed.
 Lemma s_everclosed_spawn s l : s_everclosed (spawn s l) = s_everclosed s. Proof. reflexivity. Qed.
+Lemma s_guard_spawn s l : s_guard (spawn s l) = s_guard s. Proof. reflexivity. Qed.
 Lemma s_map_set_ent s e en : s_map (set_ent s e en) = s_map s. Proof. reflexivity. Qed.
 Lemma s_w_set_ent s e en : s_w (set_ent s e en) = s_w s. Proof. reflexivity. Qed.
 Lemma s_r_set_ent s e en : s_r (set_ent s e en) = s_r s. Proof. reflexivity. Qed.
@@ -166,6 +168,7 @@ Lemma s_upg_set_ent s e en : s_upg (set_ent s e en) = s_upg s. Proof. reflexivit
 Lemma s_cuts_set_ent s e en : s_cuts (set_ent s e en) = s_cuts s. Proof. reflexivity. Qed.
 Lemma s_stolen_set_ent s e en : s_stolen (set_ent s e en) = s_stolen s. Proof. reflexivity. Qed.
 Lemma s_everclosed_set_ent s e en : s_everclosed (set_ent s e en) = s_everclosed s. Proof. reflexivity. Qed.
+Lemma s_guard_set_ent s e en : s_guard (set_ent s e en) = s_guard s. Proof. reflexivity. Qed.
 Lemma s_map_w_lock s w r : s_map (w_lock s w r) = s_map s. Proof. reflexivity. Qed.
 Lemma s_w_w_lock s w r : s_w (w_lock s w r) = w. Proof. reflexivity. Qed.
 Lemma s_r_w_lock s w r : s_r (w_lock s w r) = r. Proof. reflexivity. Qed.
@@ -181,6 +184,7 @@ Lemma s_upg_w_lock s w r : s_upg (w_lock s w r) = s_upg s. Proof. reflexivity. Q
 Lemma s_cuts_w_lock s w r : s_cuts (w_lock s w r) = s_cuts s. Proof. reflexivity. Qed.
 Lemma s_stolen_w_lock s w r : s_stolen (w_lock s w r) = s_stolen s. Proof. reflexivity. Qed.
 Lemma s_everclosed_w_lock s w r : s_everclosed (w_lock s w r) = s_everclosed s. Proof. reflexivity. Qed.
+Lemma s_guard_w_lock s w r : s_guard (w_lock s w r) = s_guard s. Proof. reflexivity. Qed.
 Lemma s_map_w_map s m : s_map (w_map s m) = m. Proof. reflexivity. Qed.
 Lemma s_w_w_map s m : s_w (w_map s m) = s_w s. Proof. reflexivity. Qed.
 Lemma s_r_w_map s m : s_r (w_map s m) = s_r s. Proof. reflexivity. Qed.
@@ -196,6 +200,7 @@ Lemma s_upg_w_map s m : s_upg (w_map s m) = s_upg s. Proof. reflexivity. Qed.
 Lemma s_cuts_w_map s m : s_cuts (w_map s m) = s_cuts s. Proof. reflexivity. Qed.
 Lemma s_stolen_w_map s m : s_stolen (w_map s m) = s_stolen s. Proof. reflexivity. Qed.
 Lemma s_everclosed_w_map s m : s_everclosed (w_map s m) = s_everclosed s. Proof. reflexivity. Qed.
+Lemma s_guard_w_map s m : s_guard (w_map s m) = s_guard s. Proof. reflexivity. Qed.
 Lemma s_map_w_ents s l : s_map (w_ents s l) = s_map s. Proof. reflexivity. Qed.
 Lemma s_w_w_ents s l : s_w (w_ents s l) = s_w s. Proof. reflexivity. Qed.
 Lemma s_r_w_ents s l : s_r (w_ents s l) = s_r s. Proof. reflexivity. Qed.
@@ -211,6 +216,7 @@ Lemma s_upg_w_ents s l : s_upg (w_ents s l) = s_upg s. Proof. reflexivity. Qed.
 Lemma s_cuts_w_ents s l : s_cuts (w_ents s l) = s_cuts s. Proof. reflexivity. Qed.
 Lemma s_stolen_w_ents s l : s_stolen (w_ents s l) = s_stolen s. Proof. reflexivity. Qed.
 Lemma s_everclosed_w_ents s l : s_everclosed (w_ents s l) = s_everclosed s. Proof. reflexivity. Qed.
+Lemma s_guard_w_ents s l : s_guard (w_ents s l) = s_guard s. Proof. reflexivity. Qed.
 Lemma s_map_w_drv s n p c : s_map (w_drv s n p c) = s_map s. Proof. reflexivity. Qed.
 Lemma s_w_w_drv s n p c : s_w (w_drv s n p c) = s_w s. Proof. reflexivity. Qed.
 Lemma s_r_w_drv s n p c : s_r (w_drv s n p c) = s_r s. Proof. reflexivity. Qed.
@@ -226,6 +232,7 @@ Lemma s_upg_w_drv s n p c : s_upg (w_drv s n p c) = s_upg s. Proof. reflexivity.
 Lemma s_cuts_w_drv s n p c : s_cuts (w_drv s n p c) = s_cuts s. Proof. reflexivity. Qed.
 Lemma s_stolen_w_drv s n p c : s_stolen (w_drv s n p c) = s_stolen s. Proof. reflexivity. Qed.
 Lemma s_everclosed_w_drv s n p c : s_everclosed (w_drv s n p c) = s_everclosed s. Proof. reflexivity. Qed.
+Lemma s_guard_w_drv s n p c : s_guard (w_drv s n p c) = s_guard s. Proof. reflexivity. Qed.
 Lemma s_map_w_ghost s a b c d e f g : s_map (w_ghost s a b c d e f g) = s_map s. Proof. reflexivity. Qed.
 Lemma s_w_w_ghost s a b c d e f g : s_w (w_ghost s a b c d e f g) = s_w s. Proof. reflexivity. Qed.
 Lemma s_r_w_ghost s a b c d e f g : s_r (w_ghost s a b c d e f g) = s_r s. Proof. reflexivity. Qed.
@@ -241,8 +248,8 @@ Lemma s_upg_w_ghost s a b c d e f g : s_upg (w_ghost s a b c d e f g) = d. Proof
 Lemma s_cuts_w_ghost s a b c d e f g : s_cuts (w_ghost s a b c d e f g) = e. Proof. reflexivity. Qed.
 Lemma s_stolen_w_ghost s a b c d e f g : s_stolen (w_ghost s a b c d e f g) = f. Proof. reflexivity. Qed.
 Lemma s_everclosed_w_ghost s a b c d e f g : s_everclosed (w_ghost s a b c d e f g) = g. Proof. reflexivity. Qed.
-Global Hint Rewrite s_map_set_thr s_w_set_thr s_r_set_thr s_ents_set_thr s_thr_set_thr s_nstmt_set_thr s_prep_set_thr s_closed_set_thr s_calls_set_thr s_fails_set_thr s_evicts_set_thr s_upg_set_thr s_cuts_set_thr s_stolen_set_thr s_everclosed_set_thr s_map_spawn s_w_spawn s_r_spawn s_ents_spawn s_thr_spawn s_nstmt_spawn s_prep_spawn s_closed_spawn s_calls_spawn s_fails_spawn s_evicts_spawn s_upg_spawn s_cuts_spawn s_stolen_spawn s_everclosed_spawn s_map_set_ent s_w_set_ent s_r_set_ent s_ents_set_ent s_thr_set_ent s_nstmt_set_ent s_prep_set_ent s_closed_set_ent s_calls_set_ent s_fails_set_ent s_evicts_set_ent s_upg_set_ent s_cuts_set_ent s_stolen_set_ent s_everclosed_set_ent s_map_w_lock s_w_w_lock s_r_w_lock s_ents_w_lock s_thr_w_lock s_nstmt_w_lock s_prep_w_lock s_closed_w_lock s_calls_w_lock s_fails_w_lock s_evicts_w_lock s_upg_w_lock s_cuts_w_lock s_stolen_w_lock s_everclosed_w_lock s_map_w_map s_w_w_map s_r_w_map s_ents_w_map s_thr_w_map s_nstmt_w_map s_prep_w_map s_closed_w_map s_calls_w_map s_fails_w_map s_evicts_w_map s_upg_w_map s_cuts_w_map s_stolen_w_map s_everclosed_w_map s_map_w_ents s_w_w_ents s_r_w_ents s_ents_w_ents s_thr_w_ents s_nstmt_w_ents s_prep_w_ents s_closed_w_ents s_calls_w_ents s_fails_w_ents s_evicts_w_ents s_upg_w_ents s_cuts_w_ents s_stolen_w_ents s_everclosed_w_ents s_map_w_drv s_w_w_drv s_r_w_drv s_ents_w_drv s_thr_w_drv s_nstmt_w_drv s_prep_w_drv s_closed_w_drv s_calls_w_drv s_fails_w_drv s_evicts_w_drv s_upg_w_drv s_cuts_w_drv s_stolen_w_drv s_everclosed_w_drv s_map_w_ghost s_w_w_ghost s_r_w_ghost s_ents_w_ghost s_thr_w_ghost s_nstmt_w_ghost s_prep_w_ghost s_closed_w_ghost s_calls_w_ghost s_fails_w_ghost s_evicts_w_ghost s_upg_w_ghost s_cuts_w_ghost s_stolen_w_ghost s_everclosed_w_ghost : st.
-
+Lemma s_guard_w_ghost s a b c d e f g : s_guard (w_ghost s a b c d e f g) = s_guard s. Proof. reflexivity. Qed.
+Global Hint Rewrite s_map_set_thr s_w_set_thr s_r_set_thr s_ents_set_thr s_thr_set_thr s_nstmt_set_thr s_prep_set_thr s_closed_set_thr s_calls_set_thr s_fails_set_thr s_evicts_set_thr s_upg_set_thr s_cuts_set_thr s_stolen_set_thr s_everclosed_set_thr s_guard_set_thr s_map_spawn s_w_spawn s_r_spawn s_ents_spawn s_thr_spawn s_nstmt_spawn s_prep_spawn s_closed_spawn s_calls_spawn s_fails_spawn s_evicts_spawn s_upg_spawn s_cuts_spawn s_stolen_spawn s_everclosed_spawn s_guard_spawn s_map_set_ent s_w_set_ent s_r_set_ent s_ents_set_ent s_thr_set_ent s_nstmt_set_ent s_prep_set_ent s_closed_set_ent s_calls_set_ent s_fails_set_ent s_evicts_set_ent s_upg_set_ent s_cuts_set_ent s_stolen_set_ent s_everclosed_set_ent s_guard_set_ent s_map_w_lock s_w_w_lock s_r_w_lock s_ents_w_lock s_thr_w_lock s_nstmt_w_lock s_prep_w_lock s_closed_w_lock s_calls_w_lock s_fails_w_lock s_evicts_w_lock s_upg_w_lock s_cuts_w_lock s_stolen_w_lock s_everclosed_w_lock s_guard_w_lock s_map_w_map s_w_w_map s_r_w_map s_ents_w_map s_thr_w_map s_nstmt_w_map s_prep_w_map s_closed_w_map s_calls_w_map s_fails_w_map s_evicts_w_map s_upg_w_map s_cuts_w_map s_stolen_w_map s_everclosed_w_map s_guard_w_map s_map_w_ents s_w_w_ents s_r_w_ents s_ents_w_ents s_thr_w_ents s_nstmt_w_ents s_prep_w_ents s_closed_w_ents s_calls_w_ents s_fails_w_ents s_evicts_w_ents s_upg_w_ents s_cuts_w_ents s_stolen_w_ents s_everclosed_w_ents s_guard_w_ents s_map_w_drv s_w_w_drv s_r_w_drv s_ents_w_drv s_thr_w_drv s_nstmt_w_drv s_prep_w_drv s_closed_w_drv s_calls_w_drv s_fails_w_drv s_evicts_w_drv s_upg_w_drv s_cuts_w_drv s_stolen_w_drv s_everclosed_w_drv s_guard_w_drv s_map_w_ghost s_w_w_ghost s_r_w_ghost s_ents_w_ghost s_thr_w_ghost s_nstmt_w_ghost s_prep_w_ghost s_closed_w_ghost s_calls_w_ghost s_fails_w_ghost s_evicts_w_ghost s_upg_w_ghost s_cuts_w_ghost s_stolen_w_ghost s_everclosed_w_ghost s_guard_w_ghost : st.
 Lemma ent_set_thr s t th e : ent (set_thr s t th) e = ent s e. Proof. reflexivity. Qed.
 Lemma ent_spawn s l e : ent (spawn s l) e = ent s e. Proof. reflexivity. Qed.
 Lemma ent_w_thr s l e : ent (w_thr s l) e = ent s e. Proof. reflexivity. Qed.
@@ -309,8 +316,9 @@ Qed.
 Lemma cnt_nil f : cnt f [] = 0. Proof. reflexivity. Qed.
 
 (* ---- reachability ---- *)
+(* reachable from the initial state of either variant of the code (guard = false: as it is) *)
 Definition reach (progs : list (list op)) (s : state) : Prop :=
-  exists sched, run (init progs) sched = Some s.
+  exists g sched, run (init_g g progs) sched = Some s.
 
 Lemma run_app s a b : run s (a ++ b) = match run s a with Some s1 => run s1 b | None => None end.
 Proof.
@@ -320,11 +328,11 @@ Qed.
 
 (* induction principle: an invariant of [init] preserved by [step] holds of every reachable state *)
 Lemma reach_ind (progs : list (list op)) (P : state -> Prop) :
-  P (init progs) ->
+  (forall g, P (init_g g progs)) ->
   (forall s t c s', P s -> step s t c = Some s' -> P s') ->
   forall s, reach progs s -> P s.
 Proof.
-  intros H0 Hs s [sched R].
+  intros H0 Hs s [g [sched R]].
   assert (G : forall sched s0 s1, P s0 -> run s0 sched = Some s1 -> P s1).
   { clear -Hs. induction sched as [|[t c] r IH]; intros s0 s1 HP Hr; cbn in Hr.
     - inversion Hr; subst; exact HP.
@@ -334,5 +342,5 @@ Qed.
 
 Lemma reach_step progs s t c s' : reach progs s -> step s t c = Some s' -> reach progs s'.
 Proof.
-  intros [sched R] H. exists (sched ++ [(t, c)]). rewrite run_app, R. cbn. rewrite H. reflexivity.
+  intros [g [sched R]] H. exists g, (sched ++ [(t, c)]). rewrite run_app, R. cbn. rewrite H. reflexivity.
 Qed.
